@@ -40,8 +40,9 @@ def run(ctx):
         victim = ctx.rng.choice(names_[1:])
         after = "/" + ctx.rng.choice(names_[:names_.index(victim)])
         full = len(tree["c"][victim]["data"]) // 2
-        newlen = ctx.rng.randrange(1, full)
-        opts = {"meph": ctx.rng.choice([2, 3, 100000]), "mbs": ctx.rng.choice([8, 30, 1000]), "sfc": ctx.rng.choice([0, 16, 1000]),
+        newlen = ctx.rng.randrange(1, full) if t % 2 else 0        # every other: cut to nothing (read returns no byte)
+        sfc, mbs = [(1000, 1000), (16, 30), (0, 8), (1000, 30)][(t // 2) % 4]   # all small and queued together / some / none
+        opts = {"meph": ctx.rng.choice([2, 3, 100000]), "mbs": mbs, "sfc": sfc,
                 "mutate": [{"after": after, "path": victim, "len": newlen}]}
         steps = [{"op": "init"}, {"op": "mktree", "path": "src", "tree": tree}, {"op": "snap", "path": "src"}, {"op": "walk"},
                  {"op": "backup", "opts": opts}, {"op": "arch"}]
